@@ -29,6 +29,8 @@ CaseVerdict ==
   CASE E.what = "base" -> "accept"
     [] E.what = "len" -> "reject"
     [] E.what = "feature" -> KeyVerdict("bool", E.c)
+    [] E.what = "features" -> "accept"
+    [] E.what = "reqtype" -> ReqTypeVerdict(E.i)
     [] E.what = "pos" -> PosVerdict(E.t, E.i, E.c)
     [] E.what = "key" -> KeyVerdict((CHOOSE k \in Types[E.t].keys : k.k = E.key).kind, E.c)
 
